@@ -632,7 +632,7 @@ def run(ctx):
     if not q:
         plan = [("merge", "merge", 2, 2, False, None), ("merge3", "merge", 1, 3, False, None), ("lazy", "lazy", 4, 2, False, None), ("lazyB", "lazy", 3, 2, True, None),
                 ("prog", "prog", 4, 2, False, None), ("progB", "prog", 3, 2, True, None), ("aux", "aux", 4, 2, False, None),
-                ("exp", "exp", 3, 2, True, None), ("marshal", "marshal", 3, 3, True, None), ("deep", "deep", 7, 2, False, dict(num=250))]
+                ("exp", "exp", 3, 2, True, None), ("marshal", "marshal", 3, 3, True, None), ("deep", "deep", 7, 2, False, dict(num=4000))]
 
     def sub(conf, steps, nd, big, variant="ok"):
         return {'Conf = "merge"': 'Conf = "%s"' % conf, "MaxSteps = 1": "MaxSteps = %d" % steps, "NDirs = 2": "NDirs = %d" % nd,
@@ -643,7 +643,7 @@ def run(ctx):
         if kind == "main":
             _, _, conf, steps, nd, big, sim = j
             cfg = tracecheck._cfg("Context.cfg", sub(conf, steps, nd, big), ctx.scratch, "cx_%s.cfg" % name)
-            if sim: return name, tlc.run("MC_Context", cfg, ctx.scratch, workers=4, timeout=1500, heap="4g", simulate=sim, depth=steps + 1, seed=ctx.seed)
+            if sim: return name, tlc.run("MC_Context", cfg, ctx.scratch, workers=1, timeout=1500, heap="4g", simulate=sim, depth=steps + 1, seed=ctx.seed)      # one worker: reproducible walks
             return name, tlc.run("MC_Context", cfg, ctx.scratch, workers=4, timeout=1500, heap="4g")
         _, _, conf, steps, nd = j
         cfg = tracecheck._cfg("Context.cfg", sub(conf, steps, nd, False, name[6:]), ctx.scratch, "cx_%s.cfg" % name)
@@ -672,7 +672,7 @@ def run(ctx):
 
     # ---- replay ----
     used = collections.Counter(); total = 0; nvirtual = 0
-    budget = {"exp": ctx.pick(100, 1500), "marshal": ctx.pick(160, 2000), "deep": 20000}
+    budget = {"exp": ctx.pick(100, 1500), "marshal": ctx.pick(160, 2000), "deep": 10000}
     for name, conf, steps, nd, big, sim in plan:
         W = World(os.path.join(ctx.scratch, "w_" + name), nd)
         L = recs[name]
